@@ -10,3 +10,4 @@ open Neutrino.Lru
 #print axioms C16_replay_is_run
 #print axioms Neutrino.LockObj.lock_serializes
 #print axioms Neutrino.LockObj.holder_sees_own_effects
+#print axioms C16_oracle_sound
